@@ -54,7 +54,11 @@ try:
         r = subprocess.run(["git", "-C", wt, "apply", "--3way", patch], capture_output=True, text=True)
         res["applied_3way"] = True
     if r.returncode:
-        res["verdict"] = "REJECT: patch does not apply at HEAD: " + r.stderr[:300]
+        subprocess.run(["git", "-C", wt, "checkout", "--", "."], capture_output=True)
+        r = subprocess.run(["patch", "-p1", "-s", "-f", "--no-backup-if-mismatch", "-d", wt, "-i", patch], capture_output=True, text=True)
+        res["applied_with_fuzz"] = True
+    if r.returncode:
+        res["verdict"] = "REJECT: patch does not apply at HEAD: " + (r.stderr + r.stdout)[:300]
         raise SystemExit
     newpatch = subprocess.run(["git", "-C", wt, "diff", "HEAD", "--", "src"], capture_output=True, text=True).stdout
     rc1, out1 = run_demo()
